@@ -283,6 +283,15 @@ func H_C03_arrays() {
 		b := c03IntArr()
 		r := funcOpAdd(nil, a, b).([]any)
 		vassert(len(r) == len(a)+len(b), "array + array concatenates")
+		// a left operand with spare capacity (as array constructors and decoders produce):
+		// two sums of the same operand are independent values
+		spare := make([]any, len(a), len(a)+4)
+		copy(spare, a)
+		x, y := c03Small(), c03Small()
+		r1 := funcOpAdd(nil, spare, []any{x}).([]any)
+		r2 := funcOpAdd(nil, spare, []any{y}).([]any)
+		vassert(len(r1) == len(a)+1 && r1[len(a)].(int) == x, "a sum is not changed by a later sum of the same left operand")
+		vassert(len(r2) == len(a)+1 && r2[len(a)].(int) == y, "array + array appends the right operand")
 		vassert(funcOpAdd(nil, a, nil) != nil && hIdentical(funcOpAdd(nil, nil, a), snap), "null is the identity of +")
 		vassert(funcContains(r, b).(bool), "a + b contains b")
 	case 7:
